@@ -307,6 +307,50 @@ func VerifC37Merge() {
 	verifC37Precedence(merged, lower, higher, "")
 }
 
+// VerifC37MergeTwice: merging two different higher-priority configurations
+// onto the SAME lower one (as the controller does for alpha and beta) yields two
+// independent results: the second merge changes neither the first result nor the
+// lower configuration - also when the lower lists have spare capacity (as lists
+// produced by earlier appends or by decoding do).
+func VerifC37MergeTwice() {
+	mk := func(n int, spare int) []string {
+		l := make([]string, 0, n+spare)
+		for i := 0; i < n; i++ {
+			l = append(l, vString(1))
+		}
+		return l
+	}
+	spare := vRange(0, 2)
+	lower := &Configuration{DefaultIgnores: mk(vRange(0, 2), spare), Ignores: mk(vRange(0, 2), spare)}
+	h1 := &Configuration{DefaultIgnores: mk(vRange(0, 1), 0), Ignores: mk(vRange(0, 2), 0)}
+	h2 := &Configuration{DefaultIgnores: mk(vRange(0, 1), 0), Ignores: mk(vRange(0, 2), 0)}
+	lowerD := append([]string(nil), lower.DefaultIgnores...)
+	lowerI := append([]string(nil), lower.Ignores...)
+	m1 := MergeConfigurations(lower, h1)
+	m1D := append([]string(nil), m1.DefaultIgnores...)
+	m1I := append([]string(nil), m1.Ignores...)
+	m2 := MergeConfigurations(lower, h2)
+	if spare > 0 && len(h1.Ignores) > 0 && len(h2.Ignores) > 0 {
+		vCover("two merges onto a list with spare capacity")
+	}
+	same := func(a, b []string) bool {
+		if len(a) != len(b) {
+			return false
+		}
+		for i := range a {
+			if a[i] != b[i] {
+				return false
+			}
+		}
+		return true
+	}
+	cat := func(a, b []string) []string { return append(append([]string(nil), a...), b...) }
+	vAssert(same(m1.DefaultIgnores, m1D) && same(m1.Ignores, m1I), "a later merge onto the same lower configuration does not change an earlier result")
+	vAssert(same(lower.DefaultIgnores, lowerD) && same(lower.Ignores, lowerI), "merging does not change the lower configuration")
+	vAssert(same(m1.Ignores, cat(lowerI, h1.Ignores)) && same(m1.DefaultIgnores, cat(lowerD, h1.DefaultIgnores)), "first merge: lower entries followed by higher entries")
+	vAssert(same(m2.Ignores, cat(lowerI, h2.Ignores)) && same(m2.DefaultIgnores, cat(lowerD, h2.DefaultIgnores)), "second merge: lower entries followed by higher entries")
+}
+
 // VerifC37Text: every supported mode written as text is read back as the same
 // value.
 func VerifC37Text() {
